@@ -203,6 +203,9 @@ func (txi *TxIndex) Search(ctx context.Context, q *query.Query) ([]*abci.TxResul
 	if err != nil {
 		return nil, fmt.Errorf("error during parsing conditions from query: %w", err)
 	}
+	if err := indexer.CheckRangeOperands(conditions); err != nil {
+		return nil, err
+	}
 
 	// if there is a hash condition, return the result immediately
 	hash, ok, err := lookForHash(conditions)
@@ -291,7 +294,12 @@ func (txi *TxIndex) Search(ctx context.Context, q *query.Query) ([]*abci.TxResul
 func lookForHash(conditions []query.Condition) (hash []byte, ok bool, err error) {
 	for _, c := range conditions {
 		if c.CompositeKey == types.TxHashKey {
-			decoded, err := hex.DecodeString(c.Operand.(string))
+			// the grammar also accepts tx.hash EXISTS and operands that are not strings
+			operand, isString := c.Operand.(string)
+			if !isString {
+				return nil, false, fmt.Errorf("%s: a string operand is expected, got %T", types.TxHashKey, c.Operand)
+			}
+			decoded, err := hex.DecodeString(operand)
 			return decoded, true, err
 		}
 	}
@@ -302,7 +310,11 @@ func lookForHash(conditions []query.Condition) (hash []byte, ok bool, err error)
 func lookForHeight(conditions []query.Condition) (height int64) {
 	for _, c := range conditions {
 		if c.CompositeKey == types.TxHeightKey && c.Op == query.OpEqual {
-			return c.Operand.(int64)
+			// the operand of "=" may also be a string, a float or a time: such a
+			// condition is evaluated like every other condition
+			if height, ok := c.Operand.(int64); ok {
+				return height
+			}
 		}
 	}
 	return 0
